@@ -287,6 +287,7 @@ def compute_unwindset(job, goto):
 # (regex on "function :: source text around the loop", bound or callable(job))
 DEFAULT_LOOP_RULES = [
     (r"signal < 32", 33),
+    (r"sigaction\(", 66),  # any other loop over signal numbers (NSIG is 65 on Linux)
     (r"errno == EINTR", lambda j: j.params.get("retry", 3)),
     (r"max_fd", lambda j: j.params.get("nfd", 18) + 2),
     (r"getcwd\(", lambda j: j.params.get("cwd_growths", 1) + 2),
